@@ -34,7 +34,7 @@ THR_MENU = [
     {'amp_fraction_threshold': 0., 'amp_consistency_threshold': .2, 'period_consistency_threshold': .3,
      'monotonicity_threshold': .05, 'min_n_cycles': 1},
 ]
-REDUCTIONS = [0, .1, .3]
+REDUCTIONS = [0, .1, .3, -.2]      # a negative reduction = stricter thresholds than the table was labelled with
 
 
 def onesided(df, e, direction, centre):
@@ -140,7 +140,9 @@ def eval_layout(case):
             df = detect_bursts_cycles(df0.copy(), **thr)
             for r in REDUCTIONS:
                 thr2 = lowered(thr, r)
-                if any(v < 0 for k, v in thr2.items() if k.endswith('threshold')):
+                if r < 0:
+                    thr2['min_n_cycles'] = thr['min_n_cycles'] + 1
+                if any(v < 0 or v > 1 for k, v in thr2.items() if k.endswith('threshold')):
                     continue
                 before = df.copy()
                 fp = fingerprint(df)
@@ -182,9 +184,9 @@ def eval_pipeline(case):
     nev, nt, outs = 0, False, []
     for thr in PIPE_THR:
         df = run_cf(sig, o, threshold_kwargs=dict(thr))
-        for r in (0, .1, .3):
+        for r in (0, .1, .3, -.2):
             thr2 = lowered(thr, r)
-            if any(v < 0 for k, v in thr2.items() if k.endswith('threshold')):
+            if any(v < 0 or v > 1 for k, v in thr2.items() if k.endswith('threshold')):
                 continue
             before = df.copy()
             fp = fingerprint(df)
@@ -223,12 +225,22 @@ def eval_pipeline(case):
             # a group: every model must be re-labelled with the thresholds lowered ONCE
             from bycycle import BycycleGroup
             sigs = np.array([sig, sig[::-1].copy(), -sig])
+            shape3 = ((1, 3), (3, 1), None)[sum(map(ord, w)) // 8 % 3]          # 2-D group, or a non-square 3-D group
             bg = BycycleGroup(thresholds=dict(thr))
-            bg.fit(sigs, 64, (6, 14), n_jobs=1)
-            before = [m.df_features.copy() for m in bg.models]
-            bg.recompute_edges(.1)
+            if shape3 is None:
+                bg.fit(sigs, 64, (6, 14), n_jobs=1)
+                models = list(bg.models)
+            else:
+                bg.fit(sigs.reshape(shape3 + (-1,)), 64, (6, 14), axis=(0, 1), n_jobs=1)
+                models = [m for row in bg.models for m in row]
+            before = [m.df_features.copy() for m in models]
+            try:
+                bg.recompute_edges(.1)
+            except Exception as e:      # noqa
+                return VIOL({'site': 'BycycleGroup.recompute_edges', 'kind': 'raise', 'exc': type(e).__name__, 'shape': repr(shape3)},
+                            'BycycleGroup.recompute_edges raised %s: %s' % (type(e).__name__, e), observed={'word': w})
             red = lowered(thr, .1)
-            for i, m in enumerate(bg.models):
+            for i, m in enumerate(models):
                 nev += 1
                 if not before[i]['is_burst'].any():
                     continue
